@@ -68,6 +68,19 @@ def alac_harnesses():
                      bounds="%d channel(s), packet buffer shrunk to 256 bytes per channel (hook), %d packet(s) of 0..40 bytes already spooled, 0..3 frames pending; spool-file creation may fail, every spool write may be short"
                             % (ch, npk) + ("; every output write/seek may fail (fault schedule)" if faulty else "")))
     return out
+def codec_init_harnesses():
+    out = []
+    for cid, cfile, fmt, tag in (("GSM", "gsm610.c", "(SF_FORMAT_AIFF | SF_FORMAT_GSM610)", "gsm610.aiff"), ("GSM", "gsm610.c", "(SF_FORMAT_WAV | SF_FORMAT_GSM610)", "gsm610.wav"),
+                                 ("G72X", "g72x.c", "(SF_FORMAT_AU | SF_FORMAT_G721_32)", "g721.au")):
+        for mode in ("SFM_READ", "SFM_WRITE"):
+            d = {"CODEC_" + cid: 1, "CODEC_FILE": '"%s"' % cfile, "FMT": fmt, "MODE": mode, "MF_FAULTY": 1, "MF_CAP": 168, "MF_MAXIO": 70, "SNP_MAX": 40, "PSF_MEMSET_MAX": 64,
+                 "LIBSNDFILE_VERIF_BUFFER_LEN": 64, "MEMCPY_MAX": 700}
+            out.append(H("codec_init_close.%s.%s" % (tag, mode[4:].lower()), "C16/codec_init_close.c", link=["common"], stubs=["psf_log_printf", "psf_memset"], defines=d, unwind=6,
+                         unwindset=["psf_fread.0:71", "psf_fwrite.0:71", "snprintf.0:41", "snprintf.1:41", "memset.0:701", "memcpy.0:701"], checks="leak", fsa=700,
+                         include_env=("log_stub", "memfile", "memset_model", "snprintf_model"), timeout=300,
+                         functions=[cfile[:-2] + "_init", cfile[:-2] + "_close", "first block decode", "psf_close"],
+                         bounds="file length 0..160 symbolic (read mode), every read/seek may fail or be short, library decode may report an error; codec library = contract stub"))
+    return out
 def setter_harnesses():
     out = []
     names = {1: "cue", 2: "inst", 3: "chanmap", 4: "str"}
@@ -80,6 +93,7 @@ def setter_harnesses():
                      bounds="two setter calls (%s then %s) with symbolic contents on a fresh write handle, then close" % (names[a], names[b])))
     return out
 HARNESSES += setter_harnesses()
+HARNESSES += codec_init_harnesses()
 HARNESSES += alac_harnesses()
 HARNESSES += seq_harnesses()
 HARNESSES += [h for h in _load("C14").HARNESSES if h.name == "fileio.ownership"]
